@@ -300,7 +300,7 @@ func judgeClientCase(r *vlib.Run, mode string, trial int, cc *clientCase, phases
 	class, named := streamClass(cc.Entry, pi, culprit, all)
 	var small proto.Message
 	if !named && culprit != nil {
-		small = shrink(culprit, 100, func(m proto.Message) bool { return alone(m.(*pb.SubscribeResponse)) })
+		small = shrink(culprit, 200, func(m proto.Message) bool { return alone(m.(*pb.SubscribeResponse)) })
 		class = shrunkClass(pi.Kind, small)
 	}
 	w := map[string]interface{}{"entry_point": cc.Entry, "case": cc, "responses": texts, "panic": pi, "input_class": class}
